@@ -1294,6 +1294,7 @@ pub fn run_c12(ctx: &mut Ctx, _known: &Known) {
     c12_logging(ctx);
     c12_maps_and_files(ctx);
     c12_passes_and_races(ctx);
+    c12_lifecycle(ctx);
     for i in 0..n {
         let mut r = Rng::new(ctx.seed.wrapping_mul(613).wrapping_add(i as u64));
         let mut c = gen_case(&mut r, vec![0, 15, 10, 7], 5);
@@ -1839,6 +1840,45 @@ fn c12_passes_and_races(ctx: &mut Ctx) {
             }
         }
         ctx.evaluations += 16 * 4000;
+    }
+}
+
+/// (y) The life cycle of a rule value: cloning, validating, optimising a clone, optimising twice —
+/// none of it changes what the rule (or its other copies) prints or matches.
+fn c12_lifecycle(ctx: &mut Ctx) {
+    let n = budget(ctx, 200, 4000);
+    for i in 0..n {
+        let mut r = Rng::new(ctx.seed.wrapping_mul(389).wrapping_add(i as u64));
+        let c = gen_case(&mut r, vec![0], 5);
+        let rule = match Rule::from_value(implside::rule_value(&c)) { Ok(r) => r, Err(_) => continue };
+        let docs: Vec<&Mapping> = c.docs.iter().filter_map(|d| d.as_mapping()).collect();
+        let show = |r: &Rule| -> String { format!("{} {}", r.detection.expression, implside::ids_sx(&r.detection.identifiers)) };
+        let verd = |r: &Rule| -> Vec<bool> { docs.iter().map(|d| r.matches(*d)).collect() };
+        let dummy = Exchange { line: format!("lifecycle {}", i), imp: String::new(), model: String::new(), agree: true, supported: false };
+        ctx.evaluations += 1;
+        ctx.nontrivial.insert(hash_str(&case::case_line(false, &c)));
+        let p0 = show(&rule);
+        let v0 = verd(&rule);
+        let mut bad: Option<String> = None;
+        // validate, then match; clone, then match
+        let _ = rule.validate();
+        if verd(&rule) != v0 || show(&rule) != p0 { bad = Some("validate() changed what the rule prints or matches".into()); }
+        let cl = rule.clone();
+        if verd(&cl) != v0 || show(&cl) != p0 { bad = Some("a clone prints or matches differently".into()); }
+        for (m1, m2) in [(15u64, 15u64), (15, 2), (2, 15), (3, 12), (8, 7), (1, 14)] {
+            let once = rule.clone().optimise(implside::opts(m1));
+            let (p1, v1) = (show(&once), verd(&once));
+            let twice = once.clone().optimise(implside::opts(m2));
+            if show(&twice) != p1 || verd(&twice) != v1 {
+                bad = Some(format!("optimising an optimised rule again (switches {} then {}) changes what it prints or matches", m1, m2));
+            }
+            let _ = once.validate();
+            if verd(&once) != v1 || show(&once) != p1 { bad = Some(format!("validate() changed an optimised rule (switches {})", m1)); }
+            if show(&rule) != p0 || verd(&rule) != v0 { bad = Some(format!("optimising a clone (switches {}) changed the original", m1)); }
+        }
+        if let Some(what) = bad {
+            ctx.violation("oracle", &what, &dummy, &rule_yaml(&c), true);
+        }
     }
 }
 
